@@ -294,6 +294,12 @@ func (h *handler1) handleBrokerPublish(ctx context.Context, mqPublish *mqPkts.Pu
 		h.log.Error("PUBLISH payload too long (%d bytes), dropped.", len(mqPublish.Payload))
 		return nil
 	}
+	// The same holds for the REGISTER packet (4B header + 4B REGISTER fields +
+	// topic name) which would have to be sent for a not yet registered topic.
+	if len(mqPublish.TopicName)+8 > snPkts1.MaxPacketLen {
+		h.log.Error("PUBLISH topic name too long (%d bytes), dropped.", len(mqPublish.TopicName))
+		return nil
+	}
 
 	// Get TopicID
 	var needsRegister bool
